@@ -250,6 +250,76 @@ Definition recv_chunk (r : role) (my_id target : id) (p : presented) (st : nstat
 Definition recv_all (r : role) (my_id target : id) (p : presented) (chunks : list (list blk)) : nstate :=
   fold_left (recv_chunk r my_id target p) chunks n_init.
 
+(* ------------------------------------------------------------------ pending lookups and crossed connections
+   Tub.getBrokerForTubRef / brokerAttached / connectionFailed / brokerDetached with the waiting lists: several outbound
+   lookups may be pending (tubConnectors, waitingForBrokers) while connections -- also INBOUND ones from the Tubs being
+   dialled -- complete in any order.  brokerAttached works throughout on the key it was called with (checked in the source:
+   its parameters are never rebound). *)
+Record tstate := { t_tab : table;                          (* Tub.brokers *)
+                   t_conn : list id;                       (* keys of Tub.tubConnectors *)
+                   t_wait : list (id * nat);               (* waitingForBrokers: tub id -> request numbers *)
+                   t_ans : list (nat * id * option conn);  (* request number, tub id asked for, Broker it was answered with
+                                                              (None: errback) *)
+                   t_n : nat }.
+
+Definition t_init : tstate := {| t_tab := []; t_conn := []; t_wait := []; t_ans := []; t_n := O |}.
+
+Inductive tevent :=
+  | TLookup (x : id)                                       (* getBrokerForTubRef(x), e.g. from getReference *)
+  | TNegotiated (r : role) (target : id) (p : presented) (claimed : option id) (decision_arrives : bool)
+  | TFailed (x : id)                                       (* connectionFailed(x): the TubConnector gave up *)
+  | TDetached (k : id).                                    (* brokerDetached *)
+
+Fixpoint remove_id (k : id) (l : list id) : list id :=
+  match l with [] => [] | x :: r => if list_eqb k x then remove_id k r else x :: remove_id k r end.
+Fixpoint mem_id (k : id) (l : list id) : bool :=
+  match l with [] => false | x :: r => list_eqb k x || mem_id k r end.
+
+Definition fire (k : id) (c : option conn) (w : list (id * nat)) : list (nat * id * option conn) :=
+  map (fun e => (snd e, fst e, c)) (filter (fun e => list_eqb k (fst e)) w).
+Definition unwait (k : id) (w : list (id * nat)) : list (id * nat) := filter (fun e => negb (list_eqb k (fst e))) w.
+
+(* Tub.brokerAttached(k, c): connector forgotten, duplicate refused, stored under k, waiters of k answered with c *)
+Definition t_attach (st : tstate) (k : id) (c : conn) : tstate :=
+  if tbl_mem k (t_tab st)
+  then {| t_tab := t_tab st; t_conn := remove_id k (t_conn st); t_wait := t_wait st; t_ans := t_ans st; t_n := t_n st |}
+  else {| t_tab := (k, c) :: t_tab st; t_conn := remove_id k (t_conn st); t_wait := unwait k (t_wait st);
+          t_ans := fire k (Some c) (t_wait st) ++ t_ans st; t_n := t_n st |}.
+
+Definition tstep (my_id : id) (st : tstate) (e : tevent) : tstate :=
+  match e with
+  | TLookup x =>
+      match tbl_get x (t_tab st) with
+      | Some c => {| t_tab := t_tab st; t_conn := t_conn st; t_wait := t_wait st;
+                     t_ans := (t_n st, x, Some c) :: t_ans st; t_n := S (t_n st) |}
+      | None =>
+          if list_eqb x my_id
+          then let c := {| conn_cert := None; conn_loop := true |} in
+               let st' := t_attach st my_id c in
+               {| t_tab := t_tab st'; t_conn := t_conn st'; t_wait := t_wait st';
+                  t_ans := (t_n st, x, Some c) :: t_ans st'; t_n := S (t_n st) |}
+          else {| t_tab := t_tab st; t_conn := if mem_id x (t_conn st) then t_conn st else t_conn st ++ [x];
+                  t_wait := t_wait st ++ [(x, t_n st)]; t_ans := t_ans st; t_n := S (t_n st) |}
+      end
+  | TNegotiated r target p claimed arrives =>
+      match handle_hello r my_id target p claimed with
+      | Reject _ => st
+      | Accept their master =>
+          if master || arrives
+          then t_attach st (attach_key (is_client r) target their) {| conn_cert := leaf p; conn_loop := false |}
+          else st
+      end
+  | TFailed x =>
+      if tbl_mem x (t_tab st)
+      then {| t_tab := t_tab st; t_conn := remove_id x (t_conn st); t_wait := t_wait st; t_ans := t_ans st; t_n := t_n st |}
+      else {| t_tab := t_tab st; t_conn := remove_id x (t_conn st); t_wait := unwait x (t_wait st);
+              t_ans := fire x None (t_wait st) ++ t_ans st; t_n := t_n st |}
+  | TDetached k =>
+      {| t_tab := tbl_remove k (t_tab st); t_conn := t_conn st; t_wait := t_wait st; t_ans := t_ans st; t_n := t_n st |}
+  end.
+
+Definition trun (my_id : id) (evs : list tevent) : tstate := fold_left (tstep my_id) evs t_init.
+
 End Identity.
 
 (* ------------------------------------------------------------------ Tub.getReference: which request gets which answer
